@@ -71,13 +71,16 @@ package controller
 //@   ensures[C05.nocount] (old(f.lastSetPwm) == nil || f.pwmMap == nil) ==> f.stats.UnexpectedPwmValueCount == old(f.stats.UnexpectedPwmValueCount)
 //@   modifies f.stats.UnexpectedPwmValueCount, f.fan.(*fans.HwMonFan).Pwm, f.fan.(*fans.FileFan).Pwm, f.fan.(*fans.CmdFan).Pwm, procWorld, started, lastReadFailed, supportsResult
 
+//@ pure rescaleOf(v int, lo int, hi int) int = lo + int((float64(v) / 255.0) * (float64(hi) - float64(lo)))
 //@ func (*DefaultFanController).calculateTargetPwm
-//@   props C01 C02 C10
+//@   props C01 C02 C10 C04 C07
 //@   returns (target, err)
 //@   split f.fan
 //@   safety C09
 //@   requires ctrlInv(f)
 //@   atcall[rescaled] ensureNoThirdPartyIsMessingWithUs: minPwm <= target && target <= maxPwm && maxPwm == fans.fanMax(f.fan) && minPwm == floorOf(f)
+//@   atcall[C04.formula C07] ensureNoThirdPartyIsMessingWithUs: target == rescaleOf(control_loop.clampInt(lastCycleOut, 0, 255), minPwm, maxPwm)
+//@   ensures[C04.request C07] err == nil && f.minPwmOffset == old(f.minPwmOffset) ==> target == rescaleOf(control_loop.clampInt(lastCycleOut, 0, 255), old(floorOf(f)), old(fans.fanMax(f.fan)))
 //@   ensures[C01.range C02 C05 C10 C03 C09] err == nil ==> old(fans.fanMin(f.fan)) <= target && target <= old(fans.fanMax(f.fan))
 //@   ensures[C01.inv C02 C05 C10 C03 C09]   ctrlInv(f)
 //@   ensures[C01.maxconst C02 C05 C10 C03 C09] fans.fanMax(f.fan) == old(fans.fanMax(f.fan)) && f.pwmMap == old(f.pwmMap) && f.lastSetPwm == old(f.lastSetPwm)
@@ -93,7 +96,7 @@ package controller
 //@   modifies f.fan.(*fans.FileFan).Rpm, f.fan.(*fans.FileFan).Pwm, f.fan.(*fans.CmdFan).Rpm, f.fan.(*fans.CmdFan).Pwm
 //@   modifies f.controlLoop.(*control_loop.DirectControlLoop).lastTime
 //@   modifies each(*curves.LinearSpeedCurve).Value, each(*curves.FunctionSpeedCurve).Value, each(*curves.PidSpeedCurve).Value, lastAvgRead, lastValue, lastInterp, segLo, segHi, segHit, memberVals, memberCount
-//@   modifies each(*util.PidLoop).integral, each(*util.PidLoop).error, each(*util.PidLoop).lastTime, lastPidOut, procWorld, started, lastReadFailed, supportsResult
+//@   modifies each(*util.PidLoop).integral, each(*util.PidLoop).error, each(*util.PidLoop).lastTime, lastPidOut, lastCycleOut, procWorld, started, lastReadFailed, supportsResult
 
 //@ ghost var modeVerified gmap[int]bool
 //@ func trySetManualPwm
@@ -125,7 +128,7 @@ package controller
 //@   modifies f.fan.(*fans.FileFan).Rpm, f.fan.(*fans.FileFan).Pwm, f.fan.(*fans.CmdFan).Rpm, f.fan.(*fans.CmdFan).Pwm
 //@   modifies f.controlLoop.(*control_loop.DirectControlLoop).lastTime
 //@   modifies each(*curves.LinearSpeedCurve).Value, each(*curves.FunctionSpeedCurve).Value, each(*curves.PidSpeedCurve).Value, lastAvgRead, lastValue, lastInterp, segLo, segHi, segHit, memberVals, memberCount
-//@   modifies each(*util.PidLoop).integral, each(*util.PidLoop).error, each(*util.PidLoop).lastTime, lastPidOut, procWorld, started, lastReadFailed, supportsResult
+//@   modifies each(*util.PidLoop).integral, each(*util.PidLoop).error, each(*util.PidLoop).lastTime, lastPidOut, lastCycleOut, procWorld, started, lastReadFailed, supportsResult
 
 // ---- RPM monitor step and stall handling (C10) ---------------------------------------------------------
 //@ func (*DefaultFanController).measureRpm
